@@ -224,11 +224,11 @@ def _publish_match(context, match):
         }
         context['$' + str(i + 1)] = rec
 
-    for key, value, in match.groupdict().values():
+    for key, value in match.groupdict().items():
         rec = {
             'value': value,
-            'start': match.start(value),
-            'end': match.end(value)
+            'start': match.start(key),
+            'end': match.end(key)
         }
         context['$' + key] = rec
 
